@@ -667,7 +667,11 @@ func finalizeViolation(b *build, c *checkCfg, v *runViolation) (string, bool, st
 		}
 		return path, true, ""
 	}
-	plan, sched := minimise(b, c, v, want)
+	plan, sched := v.Plan, v.Schedule
+	if !v.Known {
+		// (a recorded finding is replayed as observed: no time is spent minimising it again)
+		plan, sched = minimise(b, c, v, want)
+	}
 	// authoritative replay of the minimised case, twice, fresh processes
 	r1, err := b.runWorker(&spec{Profile: c.profile, Tier: c.tier, Replay: &replay{Plan: plan, Schedule: sched}, KeepTrace: true}, 120*time.Second)
 	if err != nil {
